@@ -515,6 +515,9 @@ def full_stack(ctx, thorough, rng):
     for lat in (0, 1, 8, 24, 39, 41, 56, 200):
         for silent in (None, 0, 3, 5):
             scen.append(dict(inst=fullstack.INST, latency=lat, silent_from=silent, horizon=lat + 120))
+    scen.append(dict(inst=fullstack.INST, eager=True, horizon=120))
+    scen.append(dict(inst=fullstack.INST, eager=True, latency=8, horizon=160))
+    scen.append(dict(inst=fullstack.INST, eager=True, refuse_until=17, horizon=200))
     for refuse in (8, 15, 17, 24, 31, 33, 48):
         scen.append(dict(inst=fullstack.INST, refuse_until=refuse, horizon=200))
     for _ in range(40 if thorough else 8):
@@ -561,6 +564,9 @@ def full_stack(ctx, thorough, rng):
                 why = "init() returned %s after %d ticks (the limit is %d)" % (res, t, TIMEOUT)
             elif res is False and t != TIMEOUT:
                 why = "init() returned False after %d ticks, before the %d-tick limit" % (t, TIMEOUT)
+            elif res is False and sc.get("silent_from") is None and sc.get("refuse_until") is None and sc.get("latency", 0) <= 32:
+                why = "init() returned False although the console is reachable%s and answers every request at once" % (
+                    " (connecting takes %d ticks)" % sc["latency"] if sc.get("latency") else "")
             elif res is False and sc.get("refuse_until") is not None and ((sc["refuse_until"] + 15) // 16) * 16 <= 32:
                 # connection attempts are 2 s (16 ticks) apart: the first one after the console became reachable is well inside the limit,
                 # the console answers everything at once - a connect delay below 5 s
@@ -575,7 +581,7 @@ def full_stack(ctx, thorough, rng):
                 ctx.violation(k2, "AirTouch %d over the real socket, console scenario %s: %s" % (gen, key, why), kind="history", level="full-stack",
                               gen=gen, scenario=key, implementation_output={"init_result": res, "init_done_at": t}, spec_verdict=why)
                 break
-    ctx.coverage["rule"] += ("  Full stack: the real API object over the real socket and the in-memory transport; connect latency 0..200 ticks x console silent "
+    ctx.coverage["rule"] += ("  Full stack: the real API object over the real socket and the in-memory transport (also with the loop's eager task factory); connect latency 0..200 ticks x console silent "
                              "after 0 / 3 / 5 answers or answering, a refusing network for 8..48 ticks (one or two refused attempts before the console is reachable: init() must then return True), answers cut into random segments with unknown / duplicate / "
                              "foreign-addressed / unsolicited frames in front: init() returns within 40 ticks, False exactly at 40, True only with the complete model.")
 
